@@ -124,7 +124,14 @@ pub fn cmd_worker(args: &[String]) -> i32 {
         bin.push(tag);
         bin.extend_from_slice(&x.to_le_bytes());
     };
+    let mem_limit_kb: u64 = std::env::var("SMTSIM_WORKER_RETIRE_KB").ok().and_then(|x| x.parse().ok()).unwrap_or(2_500_000);
+    let mut retired_at: Option<u64> = None;
     for i in start..start + count {
+        // terms are leaked by design (some runs create a million of them): retire when large
+        if i > start && resident_kb() > mem_limit_kb {
+            retired_at = Some(i);
+            break;
+        }
         let seed = run_seed(base, prop, i);
         let tr = gen::generate(seed, prop);
         let c = check_trace(&tr, prop.bit(), false);
@@ -172,7 +179,7 @@ pub fn cmd_worker(args: &[String]) -> i32 {
                 );
             } else if shrunk < 2 {
                 shrunk += 1;
-                let sh = minimise(&tr, prop.bit(), v, 600);
+                let sh = minimise_across_processes(&tr, prop, v, 600);
                 // a minimised trace may turn out to be a known finding
                 let v2 = &sh.violation;
                 if known_match(&known, v2.prop.name(), v2.rule, &v2.detail).is_some() {
@@ -248,8 +255,97 @@ pub fn cmd_worker(args: &[String]) -> i32 {
         let _ = writeln!(out, "SAMPLE\t{}", one_line(smp));
     }
     let _ = std::fs::write(&outfile, &bin);
-    let _ = writeln!(out, "DONE\t{}", count);
+    if let Some(i) = retired_at {
+        let _ = writeln!(out, "PARTIAL\t{}", i);
+    }
+    let _ = writeln!(out, "DONE\t{}", retired_at.map(|i| i - start).unwrap_or(count));
     0
+}
+
+use crate::shrink::resident_kb;
+
+/// Minimise; when this process has grown too large, hand the current best trace to a fresh child
+/// process (`smtsim shrink <in> <out> <budget>`), which continues (and may hand over again).
+pub fn minimise_across_processes(tr: &crate::trace::Trace, prop: Prop, v: &crate::exec::Violation, budget: usize) -> crate::shrink::Shrunk {
+    let mut sh = minimise(tr, prop.bit(), v, budget);
+    if sh.mem_stop && sh.budget_left > 0 {
+        let tmp = root().join("sim/target/tmp");
+        let _ = std::fs::create_dir_all(&tmp);
+        let inp = tmp.join(format!("shrink-in-{}-{}.replay", std::process::id(), tr.seed));
+        let outp = tmp.join(format!("shrink-out-{}-{}.replay", std::process::id(), tr.seed));
+        let rp = Replay {
+            prop: sh.violation.prop,
+            rule: sh.violation.rule.to_string(),
+            step: sh.violation.step,
+            detail: sh.violation.detail.clone(),
+            original_steps: tr.steps.len(),
+            trace: sh.trace.clone(),
+            log: Vec::new(),
+        };
+        if std::fs::write(&inp, rp.to_text()).is_ok() {
+            let me = std::env::current_exe().expect("exe");
+            let st = Command::new(&me)
+                .arg("shrink")
+                .arg(&inp)
+                .arg(&outp)
+                .arg(sh.budget_left.to_string())
+                .env("SMTSIM_ROOT", root())
+                .stdout(Stdio::null())
+                .stderr(Stdio::null())
+                .status();
+            if matches!(st, Ok(s) if s.success()) {
+                if let Ok(text) = std::fs::read_to_string(&outp) {
+                    if let Ok(r2) = Replay::from_text(&text) {
+                        // the rule name must be one of the 'static names: keep the original
+                        sh.trace = r2.trace;
+                        sh.violation = crate::exec::Violation {
+                            prop: r2.prop,
+                            rule: sh.violation.rule,
+                            step: r2.step,
+                            detail: r2.detail,
+                        };
+                    }
+                }
+            }
+        }
+        let _ = std::fs::remove_file(&inp);
+        let _ = std::fs::remove_file(&outp);
+    }
+    sh
+}
+
+/// child side of minimise_across_processes
+pub fn cmd_shrink(inp: &str, outp: &str, budget: usize) -> i32 {
+    limit_memory(8 << 30);
+    let text = match std::fs::read_to_string(inp) {
+        Ok(t) => t,
+        Err(_) => return 2,
+    };
+    let rp = match Replay::from_text(&text) {
+        Ok(r) => r,
+        Err(_) => return 2,
+    };
+    // re-establish the violation (gives the 'static rule name back)
+    let c = check_trace(&rp.trace, rp.prop.bit(), false);
+    let v = match c.out.violation {
+        Some(v) if v.prop == rp.prop && v.rule == rp.rule => v,
+        _ => return 2,
+    };
+    let sh = minimise_across_processes(&rp.trace, rp.prop, &v, budget.saturating_sub(1));
+    let out = Replay {
+        prop: sh.violation.prop,
+        rule: sh.violation.rule.to_string(),
+        step: sh.violation.step,
+        detail: sh.violation.detail.clone(),
+        original_steps: rp.original_steps,
+        trace: sh.trace,
+        log: Vec::new(),
+    };
+    if std::fs::write(outp, out.to_text()).is_ok() {
+        0
+    } else {
+        2
+    }
 }
 
 // ------------------------------------------------------------------------------------------
@@ -353,6 +449,8 @@ fn execute(plan: &Plan, known: &[Known]) -> (Agg, u64, f64) {
     let _ = std::fs::create_dir_all(&tmp);
     let nbatches = (plan.runs + plan.batch - 1) / plan.batch;
     let next = AtomicU64::new(0);
+    // remainders of batches whose worker retired early because it had grown too large
+    let leftovers: Mutex<Vec<(u64, u64, u64)>> = Mutex::new(Vec::new());
     let stop = AtomicBool::new(false);
     let agg = Mutex::new(Agg::default());
     let dispatched_runs = AtomicU64::new(0);
@@ -366,14 +464,20 @@ fn execute(plan: &Plan, known: &[Known]) -> (Agg, u64, f64) {
                 if plan.time_budget_s > 0 && t0.elapsed().as_secs() >= plan.time_budget_s {
                     break;
                 }
-                let b = next.fetch_add(1, Ordering::Relaxed);
-                if b >= nbatches {
-                    break;
-                }
-                let start = b * plan.batch;
-                let count = plan.batch.min(plan.runs - start);
+                let left = leftovers.lock().unwrap().pop();
+                let (b, start, count) = match left {
+                    Some(x) => x,
+                    None => {
+                        let b = next.fetch_add(1, Ordering::Relaxed);
+                        if b >= nbatches {
+                            break;
+                        }
+                        let start = b * plan.batch;
+                        (b, start, plan.batch.min(plan.runs - start))
+                    }
+                };
                 let (bname, bin) = &plan.bins[(b as usize) % plan.bins.len()];
-                let outfile = tmp.join(format!("w-{}-{}-{}.bin", std::process::id(), plan.prop.name(), b));
+                let outfile = tmp.join(format!("w-{}-{}-{}-{}.bin", std::process::id(), plan.prop.name(), b, start));
                 let child = Command::new(bin)
                     .arg("worker")
                     .arg(plan.prop.name())
@@ -405,6 +509,19 @@ fn execute(plan: &Plan, known: &[Known]) -> (Agg, u64, f64) {
                     let _ = se.read_to_string(&mut err);
                 }
                 let status = child.wait();
+                // "PARTIAL <next index>": the worker retired early (memory); queue the remainder
+                let mut done_count = count;
+                for line in text.lines() {
+                    if let Some(r) = line.strip_prefix("PARTIAL\t") {
+                        if let Ok(nexti) = r.trim().parse::<u64>() {
+                            if nexti > start && nexti < start + count {
+                                leftovers.lock().unwrap().push((b, nexti, start + count - nexti));
+                                done_count = nexti - start;
+                            }
+                        }
+                    }
+                }
+                let count = done_count;
                 let mut a = agg.lock().unwrap();
                 let done = absorb(&mut a, &text, known);
                 absorb_bin(&mut a, &outfile);
